@@ -111,7 +111,7 @@ type RunOut struct {
 	Cfg    Config
 }
 
-// witness histories: the two known boundary findings, reproduced on every C05 run
+// regression histories of the two boundary findings (both fixed in /repo): run first on every C05 run
 func witness(idx int) (Config, []Op, bool) {
 	switch idx {
 	case 0: // a cdp exactly at the liquidation ratio is seized by the next begin blocker
